@@ -503,7 +503,7 @@ def _params_trans_part(ctx, exact_rows, trans_rows, rng, mg, quick):
         run_one(t, np.array(g), 1e-9, "transcendental_tree")
     # vector / list / dict / matrix forms on a few tuples of trees
     n_multi = 0
-    for j in range(4 if quick else 120):
+    for j in range(4 if quick else 40):
         ts = rs.sample(sel, 3)
         V = _cov(rng, nmax)
         vals = [rs.choice([-2.0, -1.5, 0.5, 3.0, 1.25]) for _ in names]
